@@ -86,7 +86,8 @@ def skip_width(db, ctx):
     sd = db.one("utf16_string_data", None)
     mul = None
     for n, _ in walk(sd.hir):
-        if n.get("k") == "Binary" and n.get("op") == "Mul" and "length" in render(n):
+        # the byte count: the (only) product of the parsed count with a literal
+        if n.get("k") == "Binary" and n.get("op") == "Mul" and (lit_int(n["r"]) is None) != (lit_int(n["l"]) is None):
             mul = lit_int(n["r"]) if lit_int(n["r"]) is not None else lit_int(n["l"])
     ctx.ob("utf16_string_data|2-bytes-per-unit", mul == 2, "utf16_string_data takes length*%s bytes (UTF-16 code units are 2 bytes)" % mul, fn=sd)
     ctx.floor(4)
